@@ -262,7 +262,11 @@ func visitInstr(fr *frame, instr ssa.Instruction) continuation {
 		fr.i.chanSend(c, fr.get(instr.X))
 
 	case *ssa.Store:
-		store(mustDeref(instr.Addr.Type()), fr.get(instr.Addr).(*value), fr.get(instr.Val))
+		addr := fr.get(instr.Addr).(*value)
+		if fr.i.ps != nil && fr.i.ps.track != nil {
+			fr.i.noteWrite(addr)
+		}
+		store(mustDeref(instr.Addr.Type()), addr, fr.get(instr.Val))
 
 	case *ssa.If:
 		succ := 1
@@ -374,6 +378,9 @@ func visitInstr(fr *frame, instr ssa.Instruction) continuation {
 		v := fr.get(instr.Value)
 		switch m := m.(type) {
 		case *omap:
+			if fr.i.ps != nil && fr.i.ps.track != nil {
+				fr.i.noteMapWrite(m)
+			}
 			m.insert(fr.i, key, v)
 		default:
 			panic(fmt.Sprintf("illegal map type: %T", m))
